@@ -136,6 +136,19 @@ func protocolMore(t *testing.T, bind *Binding, job *Job, p *sdl.Program, acc *st
 				first, firstSpec = o, s
 			}
 		}
+		// a runner fails: Run returns its error, and the shutdown that follows still reaches
+		// every closer
+		if first != nil {
+			n := 0
+			for _, site := range first.Sites {
+				if strings.HasPrefix(site, "run:") && n < 2 {
+					n++
+					fs := faultSpec(firstSpec, first, site)
+					fs.CloseAfterRunnerFailure = true
+					do(fs)
+				}
+			}
+		}
 		// the initialization of a closer fails the first time it is attempted: either the start
 		// fails, or the closer is there (created by a later attempt) and gets closed like the others
 		if first != nil {
